@@ -40,3 +40,17 @@ Definition spec_ok (pss : list (list piece)) (impl : list str + nat) : bool :=
 Definition judge_layout (c : list str * list (list piece) * (list str + nat)) : nat :=
   let '(lines, pss, impl) := c in
   verdict (negb (res_eqb (read_all default_cfg lines) impl)) (negb (spec_ok pss impl)) 0.
+
+(* parser-level case: (the option `lower`, a piece of the source statement as written — an initial
+   value, a PARAMETER value, the bind(...) text, a length / kind expression, an attribute —, the text
+   the parsed entity carries for it).  Spec: every literal verbatim, the code around the literals
+   lower-cased exactly when `lower` is on. *)
+From Ford Require Import Lex.QuoteLower.
+
+Definition judge_field (c : bool * str * option str) : nat :=
+  let '(lw, src, impl) := c in
+  verdict false
+    (negb (match impl with
+           | Some t => str_eqb t (if lw then lower_outside src else src)
+           | None => false
+           end)) 0.
